@@ -160,6 +160,15 @@ def typed_case(rng, big=False):
             rtys.append("str")
             total += 8 + len(hx) // 2
             continue
+        if rng.chance(0.05):
+            # a vector of C strings (no NUL inside an element): written element by element through operator<<(const char*)
+            strs = ["".join("%02x" % rng.randrange(1, 256) for _ in range(rng.pick([0, 1, 3, 8, 20]))) for _ in range(rng.randint(0, 4))]
+            c.append("wvc" + "".join(" " + (x or "-") for x in strs))
+            v = "[" + ",".join("s" + x for x in strs) + "]"
+            vals.append(("v(str)", v))
+            rtys.append("v(str)")
+            total += enc_len("v(str)", v)
+            continue
         ty = pick_type(rng)
         v = gen_value(rng, ty, big)
         c.append("w %s %s" % (ty, v))
